@@ -11,7 +11,7 @@ CHECKS = {
                   'scratch stacks exactly xxx_deep octets with a guard zone; 64- and 32-bit words.',
              note='trusted: ref/arith_catalogue.py (+arith_cat_*), Python int / ref/polys.py; cross product complete up to a stated tuple limit per cell, pairwise-full above', ref='4/C05'),
  'C06': dict(cat='model_checking', tech='complete enumeration of all ordered point pairs of complete small curves and closed subgroups, and of every scalar 0..2*ord+2 in every word layout, on the real ec/ecp/ec2 code against an affine group-law reference',
-             text='GF(p): complete curves over p in {11, 13, 251 (, 1021)} of every group class (prime/odd order, one or three points of order 2, A = -3, A = 0, B = 0): every ordered pair (P, Q) incl. O through add/sub/adda/suba and neg/dbl/tpl/toa/froma/dbla with projective inputs scaled by 4 factors, 4 representations of O, aliasings c=a, c=b, a=b; '
+             text='ecpSWU on every standard prime curve (Crandall, Barrett, Montgomery fields) and group validators on all 22 standard curves (order at and beyond both exact Hasse boundaries; IsSafeGroup thresholds around the embedding degree of small prime orders). GF(p): complete curves over p in {11, 13, 251 (, 1021)} of every group class (prime/odd order, one or three points of order 2, A = -3, A = 0, B = 0): every ordered pair (P, Q) incl. O through add/sub/adda/suba and neg/dbl/tpl/toa/froma/dbla with projective inputs scaled by 4 factors, 4 representations of O, aliasings c=a, c=b, a=b; '
                   'ecpIsOnA on all raw (x, y) in [0, p+1]^2; ecpIsValid / ecpSeemsValidGroup / ecpIsSafeGroup on 42 (66) curves with known group order and embedding degree (thresholds around it, composite / anomalous orders, Hasse violations, base off the curve); every scalar k in 0..2*ord+2 in four word layouts and lengths selecting every NAF window width; ecHasOrderA, ecAddMulA with 1-3 terms; closed subgroups of order 72/210 over ten multi-word primes (Plain, Montgomery, Crandall rings, 2..8 words); '
                   'ec2: complete subfield curves E(GF(2^d)), d in {5, 7, 11}, inside GF(2^70..110); SWU on every admissible field element of 30 (48) curves; boundary points x scalars on 22 standard curves; exact xxx_deep stacks with guard zones; 64- and 32-bit words.',
              note='trusted: ref/ecp.py, ref/ec2.py (vector-gated); gf2Create refuses fields below one word, hence subfield curves for the binary case', ref='4/C06'),
@@ -25,7 +25,7 @@ CHECKS = {
                   'every signature bit, r,s in {0,q,q+r}, every public-key bit and hash alteration accepted iff the reference equation accepts (rows engineered to s = 0, r = 0, t = 0); dependent public keys (d in {1, order - 1}: Q = +-base point) x 48 (400) (hash, nonce) fillers per set with verify(sign) = OK; dstu compress/recover round trip incl. x = 0 and both trace classes; pfok DH / MTI symmetric and = pow(). The reference corpus is executed by the 64-bit and by the 32-bit word build.',
              note='trusted: ref/bign.py, ref/g12s.py, ref/dstu.py, ref/ec2.py, ref/pfok.py (vector-gated)', ref='4/C16'),
  'C12': dict(cat='model_checking', tech='complete enumeration of finite domains (date tuples over an octet alphabet, every integer below 2^16/2^24 and in boundary windows, every binary polynomial of degree <= 16) and of field x perturbation tables of every standard parameter set on the real validators against independent references',
-             text='tmDateIsValid2 on all 6-tuples over a 9- (thorough 15-) symbol octet alphabet, tmDateIsValid on every (y,m,d) of [1580,2105]x[0,13]x[0,32]; priIsPrimeW for EVERY n < 2^16 (2^24) and windows around 2^31, 2^32, 2^63, 2^64-1 and the Miller-Rabin base-set limits in both word sizes, Carmichael numbers < 10^10 (10^11), p(k(p-1)+1) families, strong pseudoprimes, products of standard primes/orders, multi-word Chernick numbers; '
+             text='ecpIsValid on every coefficient pair over Z/p for p <= 49 (255) incl. composite and too small moduli, engineered singular curves over 16-bit primes; ec2IsValid over standard and reducible polynomials; xxxSeemsValidGroup / xxxIsSafeGroup on the 22 standard curves with the order moved across the exact Hasse boundary; tmDateIsValid2 on all 6-tuples over a 9- (thorough 15-) symbol octet alphabet, tmDateIsValid on every (y,m,d) of [1580,2105]x[0,13]x[0,32]; priIsPrimeW for EVERY n < 2^16 (2^24) and windows around 2^31, 2^32, 2^63, 2^64-1 and the Miller-Rabin base-set limits in both word sizes, Carmichael numbers < 10^10 (10^11), p(k(p-1)+1) families, strong pseudoprimes, products of standard primes/orders, multi-word Chernick numbers; '
                   'priNextPrimeW/priNextPrime from every start < 2^16 and the last 2^12 values below 2^l; priIsSieved/priIsSmooth likewise; ppIsIrred/belsValM on all polynomials of degree <= 16 and structured degree-128/192/256 families; '
                   '30 standard parameter sets (bign, bign96, g12s, stb99, dstu, pfok) validate and each field x 45-85 perturbations gets the reference verdict; generators as trace conformance: bignParamsGen with scripted on_seed / calc_q callbacks (seeds before the standard one, bad orders, callback errors, 2^64 seed wrap) and pfokParamsGen / stb99ParamsGen must show the callback trace and result of the reference run of alg. 6.1.3 / the prime chain; priIsSGPrime on every odd prime < 2^16 (2^20) and word-boundary windows; public keys / key pairs at every boundary (off-curve, twist, x,y = p, p + x0, (0,0), d in {0,1,q-1,q,q+1}).',
              note='trusted: ref/pri.py (sieve + deterministic Miller-Rabin), ref/polys.py, ref/dates.py, scheme references (vector-gated); priRMTest uses an internal generator: composites are asserted rejected only with >= 24 iterations', ref='4/C12'),
@@ -93,7 +93,7 @@ CHECKS = {
  'C03': dict(cat='model_checking', tech='bounded exhaustive shape enumeration against spec-level reference models; explicit-state search of the bash automaton over byte snapshots of the real state',
              text='bash-f on all single-bit states, bash hash on every level x every length 0..2r+1, brng CTR/HMAC on IV classes whose counter carries out of every word and wraps all 256 bits with every '
                   'chunking class, HOTP/TOTP/OCRA over the suite grammar with verify accept/reject, all compared with independent spec-level models; the programmable automaton is searched to depth 2-4 from 54 '
-                  'initial states with data lengths {0,1,r-1,r,r+1,2r}, every transition compared with the model and Decr checked to invert Encr from the same predecessor state.',
+                  'initial states with data lengths {0,1,r-1,r,r+1,2r}, every transition compared with the model and Decr checked to invert Encr from the same predecessor state. bash-f and the hash cases also in the BASH_32 / SSE2 / AVX2 / AVX512 builds.',
              note='trusted: ref/bash.py, ref/brng.py, ref/botp.py (vector-gated), gcc -O2 build', ref='4/C03'),
  'C01': dict(cat='model_checking', tech='bounded exhaustive shape enumeration of the real belt code against a spec-level reference model; complete finite domain for the FMT block count',
              text='Every belt mechanism on the full cross product of key length/value classes x IV classes (incl. counters that carry out of every word and wrap 2^128) x data classes x EVERY length in the range '
@@ -104,7 +104,7 @@ CHECKS = {
              text='All schedules with <= 2 (thorough: 3) preemptions of 2-3 thread programs over {rngCreate, rngStepR, rngStepR2, rngRekey, rngIsValid, rngClose, utilOnExit}, '
                   'mtCallOnce and the atomic counter primitives, choice points at every mutex/CAS/atomic operation of the real code; on each schedule a '
                   'happens-before race detector over all instrumented accesses, deadlock/livelock detection, run-once / visibility / balance oracles and a '
-                  'sequential replay of the observed lock order; plus the same bodies free-running with up to 16 threads under ThreadSanitizer.',
+                  'sequential replay of the observed lock order; requests of mixed lengths (shorter than / equal to / longer than the reserve of a partly used block) with the oracle that no 8 octets of generator output reach two requests; plus the same bodies free-running with up to 16 threads under ThreadSanitizer.',
              note='trusted: clang TSan instrumentation (as access hooks), own scheduler/vector clocks (drv/c18/vsched.c), sequential consistency at sync-op granularity', ref='4/C18'),
  'C20': dict(cat='model_checking', tech='explicit-state search of the extracted 64x9 transition graph x history monitors; Spin re-check; exhaustive depth-bounded trace conformance on the live object',
              text='Complete: the transition function is extracted from the real btokPwdTransition on all 64 states x 9 events; the product with the '
